@@ -56,6 +56,7 @@ struct InFlight
     std::vector<ExpPacket> expect;   // fault-free end-to-end expectation for this frame (C05)
     std::vector<int> completes;      // indexes into World::sent: messages whose last frame this is
     bool isSegmentFrame{false};
+    long allocFail{-1};  // F_ALLOCFAIL
 };
 
 struct InFlightCmp
